@@ -265,7 +265,7 @@ def rule_tostr(ctx, sig, body, arg):
     """@rule tostr <expr> <Type>: `<expr>.to_string()` -> `tostr_<Type>(&<expr>)` whose (assumed)
     contract is the Display table of that type."""
     expr, ty = arg.split()
-    pat = re.compile(re.escape(expr) + r'\s*\.\s*to_string\s*\(\s*\)')
+    pat = re.compile(r'\s*\.\s*'.join(re.escape(x) for x in expr.split('.')) + r'\s*\.\s*to_string\s*\(\s*\)')
     ms = list(pat.finditer(body))
     if not ms:
         raise RuleError(f'`{expr}.to_string()` not found')
@@ -291,7 +291,7 @@ def rule_streq(ctx, sig, body, arg):
     return sig, body
 
 
-CALLBACK_GENERIC = re.compile(r'<\s*F\s*:\s*FnMut\s*\(\s*&GraphColoredVertices\s*,\s*&str\s*\)\s*>')
+CALLBACK_GENERIC = re.compile(r'<\s*F\s*:\s*FnMut\s*\(\s*&GraphColoredVertices\s*,\s*&str\s*,?\s*\)\s*,?\s*>')
 CALLBACK_PARAM = re.compile(r',?\s*progress_callback\s*:\s*&mut\s+F\s*,?')
 
 
@@ -613,7 +613,7 @@ def rule_collectstr(ctx, sig, body, arg):
 def rule_peekable(ctx, sig, body, arg):
     """R-peekable: `s.chars().peekable()` -> chars_peekable(&s) with ensures rest(r) == s@
     (assume_specification of provided trait methods such as Iterator::peekable is unsupported)"""
-    p = re.compile(r'(\w+)\.chars\(\)\.peekable\(\)')
+    p = re.compile(r'(\w+)\s*\.\s*chars\(\s*\)\s*\.\s*peekable\(\s*\)')
     if not p.search(body):
         raise RuleError('no `.chars().peekable()`')
     def r(m):
@@ -746,11 +746,15 @@ def rule_hoist(ctx, sig, body, arg):
     by the variables. Rust evaluates the operands of an expression from left to right, so naming them in that order does not change the
     behaviour; the names give proof hints a place between the calls."""
     parts = [a.strip() for a in arg.split(';;') if a.strip()]
-    toks = tokenize(body)
-    ct = code_tokens(toks)
+
+    def norm(text):
+        # code tokens without trailing commas (rustfmt adds them when it re-flows a call over several lines)
+        c = code_tokens(tokenize(text))
+        return [t for i, t in enumerate(c) if not (t.text == ',' and i + 1 < len(c) and c[i + 1].text in (')', ']', '}'))]
+    ct = norm(body)
 
     def find_seq(text, from_pos):
-        want = [t.text for t in code_tokens(tokenize(text))]
+        want = [t.text for t in norm(text)]
         for i in range(len(ct) - len(want) + 1):
             if ct[i].pos >= from_pos and [t.text for t in ct[i:i + len(want)]] == want:
                 return i, i + len(want) - 1
